@@ -119,6 +119,9 @@ def rewrite(rnd, text, is_shipped):
                 if rnd.random() < 0.3:
                     out.append(rnd.choice(['', '# comment \\', '   ', '#']))
                     feats.add('comment-inside-continuation')
+                if rnd.random() < 0.12:
+                    out.append(rnd.choice(['\\', '  \\', '\t\\  ']))       # a line that holds only the continuation character
+                    feats.add('lone-continuation-line')
             else:
                 trail = rnd.choice(['', '', '  ', '\t', '   \t '])
                 if trail:
@@ -127,7 +130,11 @@ def rewrite(rnd, text, is_shipped):
         if rnd.random() < 0.3:
             out.append(rnd.choice(['', '# c', '  # indented comment', '\t']))
             feats.add('inserted-comment-or-blank')
-    nl = rnd.choice(['\n', '\r\n'])
+    nl = rnd.choice(['\n', '\r\n', 'mixed'])
+    if nl == 'mixed':
+        # LF and CRLF line ends in one text (an LF snippet pasted into a CRLF file)
+        feats.add('mixed-line-ends')
+        return ''.join(ln + (rnd.choice(['\n', '\r\n']) if i < len(out) - 1 else '') for i, ln in enumerate(out)), feats, '\n'
     if nl == '\r\n':
         feats.add('crlf')
     return nl.join(out), feats, nl
@@ -178,6 +185,43 @@ def check_rewrite(original, rewritten, chunks, form, name):
     again = parse(original)
     if again != base:
         raise Violation('parsing the same text twice (another parse in between) gives different models', d, 'stateful')
+    # the models of separate calls are separate objects: a caller that edits one of them in place must not change what later calls return
+    shared = _shared_nodes(base, again) or _shared_nodes(base, m)
+    if shared:
+        raise Violation('models returned by separate parse_script calls share mutable objects, e.g. %r' % (shared[:2],), d, 'models-share-objects')
+    _scribble(base)
+    fresh = parse(original)
+    if fresh != again:
+        raise Violation('editing a returned model in place changes what a later parse_script call of the same text returns', d, 'models-share-objects')
+
+
+def _nodes(v, out):
+    if isinstance(v, (dict, list)):
+        out[id(v)] = v
+        for x in (v.values() if isinstance(v, dict) else v):
+            _nodes(x, out)
+    return out
+
+
+def _shared_nodes(a, b):
+    na, nb = _nodes(a, {}), _nodes(b, {})
+    return [na[i] for i in na if i in nb]
+
+
+def _scribble(v):
+    """Overwrite every leaf of a model in place."""
+    if isinstance(v, dict):
+        for k in list(v):
+            if isinstance(v[k], (dict, list)):
+                _scribble(v[k])
+            elif isinstance(v[k], (int, float)) and not isinstance(v[k], bool):
+                v[k] = 987654.0
+            elif isinstance(v[k], str):
+                v[k] = v[k] + '#scribbled'
+    elif isinstance(v, list):
+        for x in v:
+            _scribble(x)
+        v.append({'scribbled': True})
 
 
 def _diff(a, b):
@@ -239,6 +283,9 @@ def render_layout(rnd, lines):
         indent = rnd.choice([ind, ind, '', '  ', '\t'])
         if indent != ind:
             feats.add('indent')
+        if rnd.random() < 0.04 and not toks[0][1].startswith('#'):
+            out.append(rnd.choice(['\\', ' \\']))       # the statement starts with a line that holds only the continuation character
+            feats.add('lone-continuation-line')
         cur = indent
         nbreaks = 0
         pbreak = rnd.choice([0.0, 0.0, 0.1, 0.3, 1.0])
@@ -256,6 +303,9 @@ def render_layout(rnd, lines):
                 if rnd.random() < 0.3:
                     out.append(rnd.choice(['', '# comment \\', '   ', '#']))
                     feats.add('comment-inside-continuation')
+                if rnd.random() < 0.12:
+                    out.append(rnd.choice(['\\', '  \\', '\t\\  ']))       # a line that holds only the continuation character
+                    feats.add('lone-continuation-line')
                 cur = rnd.choice(['', '  ', '\t']) + tok
             elif i == 0:
                 cur += tok
@@ -268,7 +318,11 @@ def render_layout(rnd, lines):
         if rnd.random() < 0.3:
             out.append(rnd.choice(['', '# c', '  # indented comment', '\t']))
             feats.add('inserted-comment-or-blank')
-    nl = rnd.choice(['\n', '\r\n'])
+    nl = rnd.choice(['\n', '\r\n', 'mixed'])
+    if nl == 'mixed':
+        # LF and CRLF line ends in one text (an LF snippet pasted into a CRLF file)
+        feats.add('mixed-line-ends')
+        return ''.join(ln + (rnd.choice(['\n', '\r\n']) if i < len(out) - 1 else '') for i, ln in enumerate(out)), feats, '\n'
     if nl == '\r\n':
         feats.add('crlf')
     return nl.join(out), feats, nl
